@@ -254,11 +254,13 @@ inline Config gen_config(int allowed = G_REAL, int ct_force = -1) {
             }
         } else { g.k = (int)pick(1, 7); g.m = (int)pick(1, 8 - g.k); }
         g.hd = g.m;
+        if (coin(1, 5)) g.hd = (int)pick(0, 40);      // hd is documented as "= m for Reed-Solomon" and ignored by these back ends
         if (ref::is_isa(g.backend)) g.w = coin() ? 0 : 8;
         else if (g.backend == ref::B_NULL) { static const int ws[] = {0, 8, 16, 32}; g.w = ws[pick(0, 3)]; }
         else { static const int ws[] = {0, 8, 16, 32}; g.w = ws[pick(0, 3)]; }
     }
     g.ct = ct_force >= 0 ? ct_force : (coin() ? CT_NONE : CT_CRC32);
+    if (ct_force < 0 && coin(1, 12)) g.ct = CT_MD5;      // accepted checksum type without an implementation: behaves like NONE
     return g;
 }
 inline size_t gen_length(const Config &g, size_t cap) {
